@@ -28,7 +28,7 @@ RULE = ("MGDA / Random / CAGrad / GradDrop on hostile matrices against their def
 EXHAUSTIVE_NOTE = {"quick": "PCGrad: all 8 order combinations for every m = 3 matrix (and the single one for m = 2), seeded sample of the 1296 for m = 4",
                    "thorough": "PCGrad: all (m-1)!^m order combinations for every matrix with m <= 4"}
 ASSUMPTIONS = ["PCGrad decisions with an inner product within 1e-9 s^2 of zero are not judged", "CAGrad between stationarity (rho <= 1e-9 s) and "
-               "rho >= 1e-2 s (5e-2 s float32) is not judged: the rescaling c|g0|/|g_w| amplifies solver rounding there"]
+               "rho >= 2e-3 s (1e-2 s float32) is not judged: the rescaling c|g0|/|g_w| amplifies solver rounding there"]
 N = {"quick": {"mgda": 2500, "random": 600, "cagrad": 500, "graddrop": 2500, "pcgrad_sched": 220, "pcgrad_free": 800},
      "thorough": {"mgda": 80000, "random": 20000, "cagrad": 16000, "graddrop": 80000, "pcgrad_sched": 900, "pcgrad_free": 30000}}
 
@@ -51,7 +51,7 @@ def requirements(tier):
          "cagrad_distance_checked": 150, "cagrad_c0_checked": 30, "cagrad_stationary_checked": 5, "graddrop_candidate_pair_checked": 1500,
          "graddrop_draws_vs_purity_checked": 1000, "graddrop_pure_column_checked": 300, "pcgrad_schedules_forced": 500, "pcgrad_distinct_outputs_m3": 2,
          "pcgrad_free_seed_in_candidate_set": 200, "pcgrad_no_conflict_is_sum": 50, "pcgrad_replayed_draws_m_gt_4": 50, "randperm_recorder_hits": 1,
-         "rand_recorder_hits": 1, "w_leak_0_and_1": 100, "w_float32": 300, "w_graddrop_non_default_f": 300}
+         "rand_recorder_hits": 1, "w_leak_0_and_1": 100, "w_float32": 300, "w_graddrop_non_default_f": 300, "w_cagrad_ill_conditioned_judged": 10}
     if tier == "thorough":
         r["pcgrad_m4_all_1296"] = 20
         r["graddrop_frequency_checked"] = 100
@@ -155,7 +155,14 @@ def check_random(case, ctx):
 def gen_cagrad(rng, i):
     dname = "float32" if rng.random() < 0.25 else "float64"
     r = rng.random()
-    if r < 0.12:
+    if r < 0.15:
+        # ill-conditioned: two large, almost opposite rows whose mean is tiny compared to the rows (sigma_min / sigma_max down to 1e-4)
+        m, n = int(rng.integers(2, 5)), int(rng.integers(2, 7))
+        big = float(10 ** rng.uniform(1, 3.5))
+        J = rng.standard_normal((m, n))
+        J[0, 0], J[1, 0] = big, -big * (1 + rng.uniform(-1e-3, 1e-3))
+        klass = "opposite_large_rows"
+    elif r < 0.25:
         J, klass = M.gen(rng, klass="stationary_strong", m=int(rng.integers(2, 5)), max_n=6)
     elif r < 0.5:
         J, klass = M.gen(rng, klass=["antiparallel", "gaussian", "lowrank", "duplicated", "rowscale"][int(rng.integers(5))], max_m=5, max_n=7)
@@ -196,7 +203,9 @@ def check_cagrad(case, ctx):
     else:
         dist = float(np.linalg.norm(out - g0))
         target = c * float(np.linalg.norm(g0))
-        lo = {"float64": 1e-2, "float32": 5e-2}[dname]
+        # below ~10 x norm_eps (normalised) the rescaling c|g0|/|g_w| amplifies solver rounding; calibrated on the unchanged tree:
+        # float64 error <= 4e-13 for rho >= 1e-4 s, 5e-4 below; float32 <= 1e-5 for rho >= 1e-3 s
+        lo = {"float64": 2e-3, "float32": 1e-2}[dname]
         if rho >= lo * s:
             ctx.count("cagrad_distance_checked")
             ctx.maximum(f"cagrad_distance_{dname}", abs(dist - target) / (s * (1 + c)))
@@ -213,6 +222,8 @@ def check_cagrad(case, ctx):
         ctx.violation(vio[0], case, vio[1])
     if dname == "float32":
         ctx.count("w_float32")
+    if case["class"] == "opposite_large_rows" and rho >= {"float64": 2e-3, "float32": 1e-2}[dname] * s and c > 0:
+        ctx.count("w_cagrad_ill_conditioned_judged")
     ctx.evaluated(fingerprint(case), nontrivial=M.has_conflict(J))
     ctx.sample({"agg": a, "J": np.round(J, 4).tolist(), "rho_over_s": rho / s, "dtype": dname})
 
